@@ -14,7 +14,7 @@ use crate::{
     expect::{ExpectBytes, ExpectJson, ExpectString, ResponseExpectation},
     middleware::Middleware,
     protocol::{HttpRequest, HttpResult, ProtocolRequestBuilder},
-    HttpError, Request, Response,
+    HttpError, Request, Response, ResponseAsync,
 };
 
 pub struct Http<Effect, Event> {
@@ -600,9 +600,11 @@ where
                 .await;
 
             match result {
-                HttpResult::Ok(response) => Response::<Vec<u8>>::new(response.into())
-                    .await
-                    .and_then(|r| self.expectation.decode(r)),
+                HttpResult::Ok(response) => {
+                    Response::<Vec<u8>>::new(ResponseAsync::from_protocol(response)?)
+                        .await
+                        .and_then(|r| self.expectation.decode(r))
+                }
                 HttpResult::Err(error) => Err(error),
             }
         })
